@@ -55,6 +55,23 @@ def run_case(rng, res, idx):
             part.append(n)
         elif r < 0.50:
             skips.append(rng.choice(['^' + n.replace('.', r'\.') + '$', type(elig[n]).__name__ + '$' if type(elig[n]).__name__.startswith('My') else '^' + n.replace('.', r'\.') + '$']))
+    kwcall = False
+    if cfg['pdt'] in ('float32', 'float64') and rng.random() < 0.04:
+        # one supported layer is called with its input as a keyword argument by its parent
+        cand = [i for i, m_ in enumerate(model) if type(m_) in (torch.nn.Linear, torch.nn.Conv2d)]
+        if cand:
+            i_ = rng.choice(cand)
+            model[i_] = gen.KwCall(model[i_])
+            kwcall = True
+            res.count('models_with_keyword_call')
+    inplace_act = False
+    if cfg['pdt'] in ('float32', 'float64') and not kwcall and rng.random() < 0.03:
+        # an IN-PLACE activation directly after a supported layer (VGG / AlexNet style: Conv2d -> ReLU(inplace=True))
+        cand = [i for i, m_ in enumerate(model) if type(m_) in (torch.nn.Linear, torch.nn.Conv2d) and i + 1 < len(model) and type(model[i + 1]) in (torch.nn.Tanh, torch.nn.Sigmoid)]
+        if cand:
+            model[rng.choice(cand) + 1] = torch.nn.ReLU(inplace=True)
+            inplace_act = True
+            res.count('models_with_inplace_activation')
     twin = copy.deepcopy(model) if cfg['pdt'] in ('float32', 'float64') else None
     expected = {n for n, _ in gen.expected_registration(model, skips)}
     kw = kh.precond_kwargs(cfg)
@@ -79,7 +96,7 @@ def run_case(rng, res, idx):
     # shadow: an identical model with its own K-FAC preconditioner that sees the train-mode passes only. If eval-mode passes
     # leave ALL K-FAC state unchanged (also state that is not part of state_dict), both stay identical for ever.
     shadow = p_sh = None
-    if twin is not None and rng.random() < 0.5:
+    if twin is not None and rng.random() < 0.5 and not inplace_act:
         shadow = copy.deepcopy(twin)
         with warnings.catch_warnings():
             warnings.simplefilter('ignore')
@@ -155,14 +172,20 @@ def run_case(rng, res, idx):
             except Exception as e:  # noqa: BLE001
                 if twin is None:
                     raise
-                return res.violation(f'event {ei}: with K-FAC registered the forward/backward pass raised {type(e).__name__}: {str(e)[:200]} (the identical model without K-FAC runs)', case)
+                mech = None
+                if inplace_act and 'BackwardHookFunction' in str(e) and 'modified inplace' in str(e):
+                    mech = 'inplace-op-on-output-of-hooked-layer'
+                return res.violation(f'event {ei}: with K-FAC registered the forward/backward pass raised {type(e).__name__}: {str(e)[:200]} (the identical model without K-FAC runs)', case,
+                                     mechanism=mech)
         if twin is not None:
             res.count('twin_checks')
             if not torch.equal(out, tout):
                 return res.violation(f'event {ei}: registering K-FAC changed the model output', case)
             for (n, a), (_, b) in zip(model.named_parameters(), twin.named_parameters()):
-                if (a.grad is None) != (b.grad is None) or (a.grad is not None and not torch.equal(a.grad, b.grad)):
-                    return res.violation(f'event {ei}: registering K-FAC changed the autograd gradient of {n}', case)
+                same_g = (a.grad is None and b.grad is None) or (a.grad is not None and b.grad is not None and torch.equal(a.grad, b.grad))
+                if not same_g:
+                    dev_ = 'one is None' if (a.grad is None or b.grad is None) else f'max abs dev {float((a.grad.double() - b.grad.double()).abs().max()):.3e}, strides {tuple(a.grad.stride())} vs {tuple(b.grad.stride())}'
+                    return res.violation(f'event {ei}: registering K-FAC changed the autograd gradient of {n} ({dev_})', case)
         if S != 1.0:
             with torch.no_grad():   # the user unscales the gradients before preconditioning
                 for q in model.parameters():
